@@ -501,7 +501,7 @@ func NewProcess(processElem *schema.Process, definitions *schema.Definitions, op
 			return
 		}
 		var node *harness
-		subProcess := newSubProcess(process.eventDefinitionInstanceBuilder, idGenerator, element)
+		subProcess := newSubProcess(process.ctx, process.eventDefinitionInstanceBuilder, idGenerator, element)
 		node, err = newHarness(wr, idGenerator, subProcess)
 		if err != nil {
 			return
